@@ -831,7 +831,11 @@ class PlayingReactor(PacketReactor):
             self.connection.spawned = True
 
         elif packet.packet_name == "disconnect":
-            self.connection.disconnect()
+            with self.connection._write_lock:
+                # Unless the user has disconnected and started a new
+                # connection (with a new reactor) in the meantime:
+                if self.connection.reactor is self:
+                    self.connection.disconnect()
 
 
 class StatusReactor(PacketReactor):
